@@ -59,6 +59,16 @@ func c14ConcDirected(u *universe) []c08Harness {
 	for i := range hs {
 		hs[i].Immutable, hs[i].Prop = true, "C14"
 	}
+	// the Immutable wrapper over a mutable registry, overlapping tagged pushes (the content of one of them
+	// already named by another tag): nothing is deleted underneath, nothing stored before disappears
+	stable := append(append([]Op(nil), blobs...), Op{K: "PushManifest", Repo: "r", M: 1, Tag: "u"}, Op{K: "PushManifest", Repo: "r", M: 0})
+	for _, th := range [][][]cOp{
+		{{{Op: op(Op{K: "PushManifest", Repo: "r", M: 1, Tag: "t"})}}, {{Op: op(Op{K: "PushManifest", Repo: "r", M: 0, Tag: "t"})}}},
+		{{{Op: op(Op{K: "PushManifest", Repo: "r", M: 1, Tag: "t"})}}, {{Op: op(Op{K: "PushManifest", Repo: "r", M: 0, Tag: "t"})}}, {{Op: op(Op{K: "PushManifest", Repo: "r", M: 8, Tag: "t"})}}},
+		{{{Op: op(Op{K: "PushManifest", Repo: "r", M: 1, Tag: "t"})}, {Op: op(Op{K: "DeleteManifest", Repo: "r", M: 0})}}, {{Op: op(Op{K: "PushManifest", Repo: "r", M: 0, Tag: "t"})}, {Op: op(Op{K: "DeleteTag", Repo: "r", Tag: "u"})}}},
+	} {
+		hs = append(hs, c08Harness{Name: fmt.Sprintf("W%d-overlapping-tagged-pushes-through-the-Immutable-wrapper", len(th)), Prologue: stable, Threads: th, Prop: "C14", Oracle: "nothing-deleted-through-immutable"})
+	}
 	return hs
 }
 
